@@ -145,11 +145,16 @@ def run(ctx):
             for q in (p, ip):
                 os.remove(q)
     # ---- (a3) indexes larger than one BGZF block (> 64 KiB uncompressed) -------------------
-    big = [("tbi", 14, False, "far"), ("csi", 14, False, "many"), ("csi", rnd.choice([12, 14]), True, "many")]
+    big = [("tbi", 14, False, "far"), ("tbi", 14, False, "edge"), ("csi", 14, False, "many"), ("csi", rnd.choice([12, 14]), True, "many")]
     if not ctx.quick:
         big += [("tbi", 14, False, "many"), ("csi", 9, False, "far")]
     for kind, ms, bcf, shape in big:
-        if shape == "far":
+        if shape == "edge":
+            # a record in the last 16 kb window tabix can address: the linear index has its maximum length (32768 entries)
+            contigs = ["chrbig", "ctgZ"]
+            hdr = ["##contig=<ID=chrbig,length=536870912>", "##contig=<ID=ctgZ,length=1000>"] + hdr_tail
+            recs = ["chrbig\t100\t.\tA\tT\t.\tPASS\t.", f"chrbig\t{536870912 - rnd.randint(1, 16000)}\t.\tA\tT\t.\tPASS\t.", "ctgZ\t5\t.\tA\tT\t.\tPASS\t."]
+        elif shape == "far":
             contigs = ["chrbig", "ctgZ"]
             hdr = ["##contig=<ID=chrbig,length=536000000>", "##contig=<ID=ctgZ,length=1000>"] + hdr_tail
             recs = ["chrbig\t100\t.\tA\tT\t.\tPASS\t.", f"chrbig\t{rnd.randint(400000000, 500000000)}\t.\tA\tT\t.\tPASS\t.", "ctgZ\t5\t.\tA\tT\t.\tPASS\t."]
